@@ -208,10 +208,11 @@ pub fn run_query(
 ) -> Result<(), String> {
     let same = table == shipped;
     let mut rng = Rng::new(probe_seed);
+    let mut probes: Vec<i128> = Vec::with_capacity(160);
     // Every entry boundary of the provider's own table...
     for &(ts, _) in table {
         for d in [-1i128, 0, 1] {
-            probe_whole_second(p, table, same, ts as i128 + d, stats, log)?;
+            probes.push(ts as i128 + d);
         }
     }
     // ...seeded probes within +-40 s of entries of either table (the full +-40 s sweep runs once
@@ -223,17 +224,28 @@ pub fn run_query(
             rng.pick(shipped).0
         };
         let d = rng.range(0, 80) as i128 - 40;
-        probe_whole_second(p, table, same, ts as i128 + d, stats, log)?;
+        probes.push(ts as i128 + d);
     }
     if !same {
         // ...and the boundaries the shipped table has but this one may not.
         for _ in 0..4 {
             let ts = rng.pick(shipped).0;
             let d = rng.range(0, 2) as i128 - 1;
-            probe_whole_second(p, table, same, ts as i128 + d, stats, log)?;
+            probes.push(ts as i128 + d);
         }
     }
-    for &t in fixed {
+    probes.extend_from_slice(fixed);
+    // In a seeded order: a lookup must not depend on which lookup came before it (an index hint,
+    // a memo of the last answer). Now and then a SOFA-inclusive lookup is thrown in, unjudged.
+    for i in (1..probes.len()).rev() {
+        let j = rng.usize_below(i + 1);
+        probes.swap(i, j);
+    }
+    let (s0, s1) = sofa_span();
+    for &t in &probes {
+        if rng.chance(1, 16) {
+            sofa_touch(s0 + rng.below((s1 - s0) as u64) as i128);
+        }
         probe_whole_second(p, table, same, t, stats, log)?;
     }
     if same {
@@ -404,6 +416,58 @@ pub fn parts_ns(d: Duration) -> i128 {
     c as i128 * NS_PER_CENTURY + n as i128
 }
 
+/// Like `parts_ns`, and the representation must be the canonical one (nanoseconds below one
+/// century): equality, hashing and ordering of epochs are field-wise.
+pub fn canonical_ns(d: Duration, what: &str) -> Result<i128, String> {
+    let (c, n) = d.to_parts();
+    if n as i128 >= NS_PER_CENTURY && !(c == i16::MAX && n as i128 == NS_PER_CENTURY) {
+        return Err(format!(
+            "{what}: result is not in canonical form: ({c} centuries, {n} ns) carries a whole century in its nanosecond field, so ==, hashing and ordering against the same instant built directly disagree"
+        ));
+    }
+    Ok(c as i128 * NS_PER_CENTURY + n as i128)
+}
+
+/// Calls that must not influence anything: lookups *including* the pre-1972 SOFA entries, on an
+/// instant of the 1960-1971 span, through every entry point. Their results are not judged (the
+/// property does not state the SOFA values); what is judged is everything evaluated afterwards.
+pub fn sofa_touch(t_s: i128) {
+    let e = tai_epoch_ns(t_s * NS_PER_S);
+    let _ = e.leap_seconds(false);
+    let _ = e.leap_seconds_with(false, LatestLeapSeconds::default());
+    let u = utc_epoch_ns(t_s * NS_PER_S);
+    let _ = u.leap_seconds(false);
+}
+
+/// IERS-only answers and conversions at a pre-1972 instant: no offset, no SOFA value.
+pub fn judged_pre1972(t_s: i128, shipped: &[Entry], known: Known, st: &mut ConvStats) -> Result<(), String> {
+    let e = tai_epoch_ns(t_s * NS_PER_S);
+    let a = e.leap_seconds(true);
+    let b = e.leap_seconds_with(true, LatestLeapSeconds::default());
+    let i = e.leap_seconds_iers();
+    if a.is_some() || b.is_some() || i != 0 {
+        return Err(format!(
+            "at TAI second {t_s} (before the first IERS entry) leap_seconds(true) = {a:?}, leap_seconds_with(true, built-in) = {b:?}, leap_seconds_iers() = {i}; expected None, None, 0 (a pre-1972 SOFA entry is influencing an IERS-only answer)"
+        ));
+    }
+    conv_probe_utc(t_s * NS_PER_S, shipped, known, st)?;
+    conv_probe_utc(t_s * NS_PER_S + 999_999_999, shipped, known, st)?;
+    st.tai_probes += 1;
+    let back = canonical_ns(e.to_time_scale(TimeScale::UTC).duration, "TAI->UTC before 1972")?;
+    if back != t_s * NS_PER_S {
+        return Err(format!(
+            "TAI->UTC at TAI second {t_s} (before 1972) shifts the count by {} ns; the offset before 1972-01-01 is 0 s",
+            back - t_s * NS_PER_S
+        ));
+    }
+    Ok(())
+}
+
+pub fn sofa_span() -> (i128, i128) {
+    use crate::refdata::ntp_seconds_of_date as ntp;
+    (ntp(1960, 1, 1) as i128, ntp(1972, 1, 1) as i128)
+}
+
 pub fn utc_epoch_ns(ns: i128) -> Epoch {
     Epoch::from_duration(duration_ns(ns), TimeScale::UTC)
 }
@@ -436,7 +500,7 @@ pub fn conv_probe_utc(
     if tai.time_scale != TimeScale::TAI {
         return Err(format!("UTC {u} ns: to_time_scale(TAI) returned scale {:?}", tai.time_scale));
     }
-    let tai_ns = parts_ns(tai.duration);
+    let tai_ns = canonical_ns(tai.duration, &format!("UTC->TAI at UTC count {u} ns"))?;
     let got = tai_ns - u;
     let want = model_offset_ns(shipped, u);
     if got != want {
@@ -502,7 +566,7 @@ pub fn conv_probe_utc(
             ));
         }
     }
-    let delta = parts_ns(back.duration) - u;
+    let delta = canonical_ns(back.duration, &format!("TAI->UTC at TAI count {tai_ns} ns"))? - u;
     if delta != 0 {
         let mut prev = 0i128;
         let mut kf2 = false;
@@ -536,19 +600,28 @@ pub fn conv_scan_utc(
     known: Known,
     st: &mut ConvStats,
 ) -> Result<(), String> {
-    probes.sort_unstable();
-    probes.dedup();
-    let mut prev: Option<(i128, i128)> = None;
+    // Evaluated in the order given (the caller decides: ascending, descending, strided, shuffled —
+    // an implementation that remembers something between calls must not care), then checked for
+    // strict monotonicity in instant order.
+    let mut results: Vec<(i128, i128)> = Vec::with_capacity(probes.len());
     for &u in probes.iter() {
         let t = conv_probe_utc(u, shipped, known, st)?;
-        if let Some((pu, pt)) = prev {
-            if t <= pt {
-                return Err(format!(
-                    "UTC->TAI is not strictly increasing: UTC {pu} ns -> TAI {pt} ns but later UTC {u} ns -> TAI {t} ns"
-                ));
-            }
+        results.push((u, t));
+    }
+    results.sort_unstable();
+    results.dedup();
+    for w in results.windows(2) {
+        let ((pu, pt), (u, t)) = (w[0], w[1]);
+        if u == pu && t != pt {
+            return Err(format!(
+                "UTC->TAI of the same instant UTC {u} ns gave TAI {pt} ns once and {t} ns another time in the same query"
+            ));
         }
-        prev = Some((u, t));
+        if u > pu && t <= pt {
+            return Err(format!(
+                "UTC->TAI is not strictly increasing: UTC {pu} ns -> TAI {pt} ns but later UTC {u} ns -> TAI {t} ns"
+            ));
+        }
     }
     Ok(())
 }
@@ -569,7 +642,7 @@ pub fn conv_scan_tai(
         if u.time_scale != TimeScale::UTC {
             return Err(format!("TAI {a} ns: to_time_scale(UTC) returned scale {:?}", u.time_scale));
         }
-        let u_ns = parts_ns(u.duration);
+        let u_ns = canonical_ns(u.duration, &format!("TAI->UTC at TAI count {a} ns"))?;
         if let Some((pa, pu)) = prev {
             if u_ns < pu {
                 let drop = pu - u_ns;
@@ -640,8 +713,51 @@ pub fn conv_full_sweep(shipped: &[Entry], fixed: &[i128], known: Known, st: &mut
         utc.push(s * NS_PER_S + 999_999_999);
         tai.push(s * NS_PER_S);
     }
+    // Boundaries of the representation rather than of the table: a Duration counts centuries of
+    // 36525 days from 1900-01-01, so the nanosecond field rolls over on 2000-01-02, 2100-01-03, ...;
+    // the conversion must carry across them.
+    for k in [-1i128, 0, 1, 2, 3] {
+        let c = k * NS_PER_CENTURY;
+        for d_s in -45i128..=45 {
+            utc.push(c + d_s * NS_PER_S);
+            tai.push(c + d_s * NS_PER_S);
+        }
+        for d in [-NS_PER_S - 1, -500_000_000, -1, 1, 500_000_000] {
+            for off in [0i128, 10, 32, 37] {
+                utc.push(c - off * NS_PER_S + d);
+                tai.push(c + off * NS_PER_S + d);
+            }
+        }
+    }
+    utc.sort_unstable();
+    utc.dedup();
+    // ascending, descending, and a fixed stride permutation
     conv_scan_utc(&mut utc, shipped, known, st)?;
+    let mut desc: Vec<i128> = utc.iter().rev().copied().collect();
+    conv_scan_utc(&mut desc, shipped, known, st)?;
+    let n = utc.len();
+    let mut strided: Vec<i128> = (0..n).map(|i| utc[(i * 7919) % n]).collect();
+    conv_scan_utc(&mut strided, shipped, known, st)?;
     conv_scan_tai(&mut tai, shipped, known, st)?;
+    // The SOFA entries must not influence conversions, *whatever was asked before*: poke the
+    // SOFA-inclusive lookups in every month of 1960-1971, then judge IERS-only answers and
+    // conversions at that instant, later in the span, and just before the first IERS entry.
+    let (s0, s1) = sofa_span();
+    let mut m = s0;
+    while m < s1 {
+        let t = m + 15 * 86_400 + 43_200;
+        sofa_touch(t);
+        judged_pre1972(t, shipped, known, st)?;
+        sofa_touch(t);
+        judged_pre1972((t + 40 * 86_400).min(s1 - 2), shipped, known, st)?;
+        sofa_touch(t);
+        judged_pre1972(s1 - 1, shipped, known, st)?;
+        sofa_touch(t);
+        // and the first IERS entry itself is unaffected
+        conv_probe_utc(s1 * NS_PER_S, shipped, known, st)?;
+        conv_probe_utc((s1 + 86_400 * 200) * NS_PER_S, shipped, known, st)?;
+        m += 30 * 86_400 + 37_800;
+    }
     // Reaching UTC from another uniform scale is reaching it from TAI: same instant, same answer.
     for &(ts, dat) in shipped {
         for k in [-41i128, -1, 0, 1, dat as i128, dat as i128 + 1, 86_400 * 45] {
@@ -675,6 +791,7 @@ pub fn conv_full_sweep(shipped: &[Entry], fixed: &[i128], known: Known, st: &mut
 /// The light, seeded form evaluated at every Query.
 pub fn conv_light(shipped: &[Entry], probe_seed: u64, known: Known, st: &mut ConvStats) -> Result<(), String> {
     let mut rng = Rng::new(probe_seed ^ 0xC0_6C06);
+    let (s0, s1) = sofa_span();
     let mut utc: Vec<i128> = Vec::new();
     for _ in 0..4 {
         let &(ts, dat) = rng.pick(shipped);
@@ -684,7 +801,27 @@ pub fn conv_light(shipped: &[Entry], probe_seed: u64, known: Known, st: &mut Con
         utc.push(t - rng.range(1, dat as u64 + 1) as i128 * NS_PER_S + rng.below(NS_PER_S as u64) as i128);
         utc.push(t + rng.range(0, 2000) as i128 - 1000);
     }
-    utc.push(crate::refdata::ntp_seconds_of_date(1960 + rng.below(12) as i64, 1 + rng.below(12) as u32, 1) as i128 * NS_PER_S);
+    // somewhere in the middle of nowhere, and at a representation boundary
+    let lo = shipped.first().map(|e| e.0).unwrap_or(0) as i128;
+    utc.push((lo + rng.below(2_000_000_000) as i128) * NS_PER_S + rng.below(NS_PER_S as u64) as i128);
+    utc.push(rng.range(0, 2) as i128 * NS_PER_CENTURY - rng.range(0, 40) as i128 * NS_PER_S + rng.below(NS_PER_S as u64) as i128);
+    utc.push((s0 + rng.below((s1 - s0) as u64) as i128) * NS_PER_S);
+    // seeded order: nothing may depend on what was converted before
+    for i in (1..utc.len()).rev() {
+        let j = rng.usize_below(i + 1);
+        utc.swap(i, j);
+    }
+    // Poke the SOFA-inclusive lookups, then judge pre-1972 answers (see conv_full_sweep).
+    let touch = s0 + rng.below((s1 - s0 - 2) as u64) as i128;
+    sofa_touch(touch);
+    judged_pre1972(touch, shipped, known, st)?;
+    if rng.chance(1, 2) {
+        sofa_touch(touch);
+    }
+    judged_pre1972(touch + rng.below((s1 - 1 - touch) as u64) as i128, shipped, known, st)?;
+    if rng.chance(1, 2) {
+        sofa_touch(s0 + rng.below((s1 - s0 - 2) as u64) as i128);
+    }
     conv_scan_utc(&mut utc, shipped, known, st)?;
     let mut tai: Vec<i128> = Vec::new();
     let &(ts, dat) = rng.pick(shipped);
